@@ -38,6 +38,7 @@ impl Deserialize for NativeScriptEnum {
             let len = raw.array()?;
             //let mut read_len = CBORReadLen::new(len);
             let initial_position = raw.as_mut_ref().seek(SeekFrom::Current(0)).unwrap();
+            let variant = (|raw: &mut Deserializer<R>| -> Result<NativeScriptEnum, DeserializeError> {
             match (|raw: &mut Deserializer<_>| -> Result<_, DeserializeError> {
                 Ok(ScriptPubkey::deserialize_as_embedded_group(
                     raw, /*&mut read_len, */ len,
@@ -110,6 +111,12 @@ impl Deserialize for NativeScriptEnum {
                     .seek(SeekFrom::Start(initial_position))
                     .unwrap(),
             };
+            Err(DeserializeError::new(
+                "NativeScriptEnum",
+                DeserializeFailure::NoVariantMatched.into(),
+            ))
+            })(raw)?;
+            // the break of an indefinite-length script belongs to the script
             match len {
                 cbor_event::Len::Len(_) => (), /*read_len.finish()?*/
                 cbor_event::Len::Indefinite => match raw.special()? {
@@ -117,10 +124,7 @@ impl Deserialize for NativeScriptEnum {
                     _ => return Err(DeserializeFailure::EndingBreakMissing.into()),
                 },
             }
-            Err(DeserializeError::new(
-                "NativeScriptEnum",
-                DeserializeFailure::NoVariantMatched.into(),
-            ))
+            Ok(variant)
         })()
             .map_err(|e| e.annotate("NativeScriptEnum"))
     }
